@@ -574,3 +574,45 @@ example :
     query demoGeo e1 e2 1 none = [(1, 8), (2, 7)] := by decide
 
 end C06.Spatial
+
+/-! ## the whole query: dimension tables, membership tables and the overlap relation together -/
+namespace C06.Whole
+open Join _root_.Spatial C06 C06.Spatial
+
+/-- the overlap relation as one more table of the join, over the key columns of the two elements -/
+def overlapTbl (c1 c2 : Nat) (pairs : List (Nat × Nat)) : Tbl :=
+  { cols := [c1, c2], rows := pairs.map fun p => fun c => if c = c1 then p.1 else p.2 }
+
+theorem sat_overlapTbl (c1 c2 : Nat) (hne : c1 ≠ c2) (pairs : List (Nat × Nat)) (a : Nat → Nat) :
+    Sat a (overlapTbl c1 c2 pairs) ↔ (a c1, a c2) ∈ pairs := by
+  simp only [Sat, overlapTbl, List.mem_map, agreeOnB_iff]
+  constructor
+  · rintro ⟨r, ⟨p, hp, rfl⟩, ha⟩
+    have h1 := ha c1 (by simp)
+    have h2 := ha c2 (by simp)
+    simp only [↓reduceIte] at h1
+    simp only [hne.symm, ↓reduceIte] at h2
+    rw [h1, h2]
+    exact hp
+  · intro hp
+    refine ⟨_, ⟨(a c1, a c2), hp, rfl⟩, ?_⟩
+    intro c hc
+    simp only [List.mem_cons, List.not_mem_nil, or_false] at hc
+    rcases hc with rfl | rfl
+    · simp
+    · simp [hne.symm]
+
+/-- **The property, whole**: after any histories of record operations on the two spatial elements, a
+combination of dimension values is returned by the query — the natural join of the dimension and
+membership tables `Ts` with the post-processed common-skypix overlap of the two elements — exactly
+when it is consistent with every one of those tables *and* the stored regions of the two elements'
+records are not disjoint.  Raw page size and table order are irrelevant. -/
+theorem whole_query_exact (g : Geo) (hg : GeoSound g) (ops1 ops2 : List Op)
+    (w1 : ∀ op ∈ ops1, WFOp op) (w2 : ∀ op ∈ ops2, WFOp op) (n : Nat) (c1 c2 : Nat) (hne : c1 ≠ c2) (Ts : List Tbl) (a : Nat → Nat) :
+    Sat a (joinAll (overlapTbl c1 c2 (query g (run g {} ops1) (run g {} ops2) n none) :: Ts)) ↔
+      (∃ r1 r2, (a c1, some r1) ∈ (run g {} ops1).recs ∧ (a c2, some r2) ∈ (run g {} ops2).recs ∧ g.ovl r1 r2 = true) ∧ ∀ T ∈ Ts, Sat a T := by
+  rw [query_exact]
+  simp only [List.mem_cons, forall_eq_or_imp, sat_overlapTbl c1 c2 hne]
+  rw [history_query_exact g hg ops1 ops2 w1 w2 n (a c1, a c2)]
+
+end C06.Whole
